@@ -204,9 +204,9 @@ def check(prog, run):
             elif isinstance(base, ast.Attribute) and base.attr in str_slots:
                 kinds = {"StringValue"}
             if "StringValue" in kinds:
-                run.report(r, "%s:%s:content-truthiness(%s)" % (PRINTER, f.qualname, norm_stmt(o)), f.where(o),
+                run.report(r, "%s:%s:content-truthiness(%s)" % (PRINTER, f.qualname, ast.unparse(o)), f.where(o),
                            "`%s` is the content of a StringValue and is used as a %s: an explicitly empty string/description "
-                           "is treated like an absent one and is not printed, so the re-parsed tree differs" % (norm_stmt(o), how))
+                           "is treated like an absent one and is not printed, so the re-parsed tree differs" % (ast.unparse(o), how))
 
     # ---- T1 typed attribute reads in the printer
     from .. import typedrule
